@@ -186,8 +186,8 @@ type pedKeys[E algebra.PrimeGroupElement[E, S], S algebra.PrimeFieldElement[S]] 
 
 var pedKeyCache memo[any]
 
-// pedersenKeys: public keys 0,1 sampled from the fixed stream, 2 extracted from a transcript, 3 the export of
-// trapdoor key 0. Trapdoor keys: 0,1 sampled, 2 = lambda 2, 3 = lambda q-1 (boundary trapdoors).
+// pedersenKeys: public keys 0 and 2 sampled from the fixed stream, 1 extracted from a transcript, 3 the export of
+// trapdoor key 0 (quick explores 0 and 1). Trapdoor keys: 0,1 sampled, 2 = lambda 2, 3 = lambda q-1 (boundary trapdoors).
 func pedersenKeys[E algebra.PrimeGroupElement[E, S], S algebra.PrimeFieldElement[S]](c *curveCtx[E, S]) *pedKeys[E, S] {
 	return pedKeyCache.get(c.name, func() any {
 		k := &pedKeys[E, S]{}
@@ -196,12 +196,11 @@ func pedersenKeys[E algebra.PrimeGroupElement[E, S], S algebra.PrimeFieldElement
 		}
 		k.trap = append(k.trap, must(pedersencom.NewTrapdoorKey(c.group.Generator(), c.scalar(bi(2)))))
 		k.trap = append(k.trap, must(pedersencom.NewTrapdoorKey(c.group.Generator(), c.scalar(new(big.Int).Sub(c.q(), bi(1))))))
-		for i := 0; i < 2; i++ {
-			k.pub = append(k.pub, must(pedersencom.SampleCommitmentKey(c.group, newStream(fmt.Sprintf("%s/ped/key/%d", c.name, i)))))
-		}
+		k.pub = append(k.pub, must(pedersencom.SampleCommitmentKey(c.group, newStream(fmt.Sprintf("%s/ped/key/%d", c.name, 0)))))
 		t := hagrid.NewTranscript("verif-c18")
 		t.AppendBytes("context", []byte(c.name))
 		k.pub = append(k.pub, must(pedersencom.ExtractCommitmentKey(t, "pedersen-key", c.group.Generator())))
+		k.pub = append(k.pub, must(pedersencom.SampleCommitmentKey(c.group, newStream(fmt.Sprintf("%s/ped/key/%d", c.name, 1)))))
 		k.pub = append(k.pub, k.trap[0].Export())
 		return k
 	}).(*pedKeys[E, S])
@@ -216,7 +215,11 @@ func (c *curveCtx[E, S]) refPedersen(g, h refPoint, m, r *big.Int) refPoint {
 func pedersenFaultBody[E algebra.PrimeGroupElement[E, S], S algebra.PrimeFieldElement[S]](c *curveCtx[E, S]) func(*engine.X) {
 	return func(x *engine.X) {
 		keys := pedersenKeys(c)
-		ki := x.Choose("key", len(keys.pub))
+		nKeys := len(keys.pub)
+		if !engine.Thorough() {
+			nKeys = 2 // quick: one sampled key and (index 1 below) the transcript-extracted key
+		}
+		ki := x.Choose("key", nKeys)
 		msgs := c.scalarAlphabet("msg")
 		wits := c.scalarAlphabet("wit")
 		mi := x.Choose("msg", len(msgs))
@@ -285,7 +288,7 @@ func pedersenFaultBody[E algebra.PrimeGroupElement[E, S], S algebra.PrimeFieldEl
 			}
 			judge("wit-"+ch.what, same, same, key, C, M, must(pedersencom.NewWitness(ch.s)))
 		}
-		otherKey := keys.pub[(ki+1)%len(keys.pub)]
+		otherKey := keys.pub[(ki+1)%nKeys]
 		otherC := must(key.CommitWithWitness(must(pedersencom.NewMessage(c.scalar(msgs[(mi+1)%len(msgs)]))), W))
 		for _, ch := range c.pointChanges(key.G(), map[string]E{"otherkey-h": otherKey.H()}, lt) {
 			same := c.ref.eq(ch.a, g)
@@ -315,7 +318,7 @@ func pedersenFaultBody[E algebra.PrimeGroupElement[E, S], S algebra.PrimeFieldEl
 			}
 			judge("keyh-"+ch.what, same, valid, k2, C, M, W)
 		}
-		for j, k2 := range keys.pub {
+		for j, k2 := range keys.pub[:nKeys] {
 			if j != ki { // whole-key replacement (both components at once is not a lone change unless g is shared: it is, all keys use G)
 				h2 := c.affine(k2.H())
 				same := c.ref.eq(h2, h)
